@@ -18,6 +18,7 @@ var designs = []design{
 	{"calc", designCalc},
 	{"notes", designNotes},
 	{"multi", designMulti},
+	{"media", designMedia},
 }
 
 // store: path / query / header / body params with validations, a result type with
@@ -272,6 +273,224 @@ func designMulti() {
 				GET("/healthz")
 				Response(StatusOK, func() { ContentType("text/plain") })
 			})
+		})
+	})
+}
+
+// media: the remaining branches of the server / client handler templates —
+// SkipRequestBodyEncodeDecode (with and without payload), SkipResponseBodyEncodeDecode
+// (with and without result), both at once, no payload and no result, redirects (with and
+// without a request to decode), a multipart request, file servers (file, directory,
+// redirecting), websocket streaming (server streaming with a viewed result and without a
+// payload, client streaming, bidirectional), an endpoint with two routes,
+// and a secured method (basic auth + API key).
+func designMedia() {
+	API("media", func() {})
+	var Receipt = Type("Receipt", func() {
+		Attribute("name", String)
+		Attribute("tag", String)
+		Attribute("size", Int)
+		Attribute("head", String, "first bytes of the body that was read")
+		Attribute("tail", String, "last bytes of the body that was read")
+		Required("name", "size", "head", "tail")
+	})
+	var Frame = ResultType("application/vnd.c20.frame", func() {
+		TypeName("Frame")
+		Attributes(func() {
+			Attribute("topic", String)
+			Attribute("seq", Int)
+			Attribute("note", String)
+			Required("topic", "seq")
+		})
+		View("default", func() {
+			Attribute("topic")
+			Attribute("seq")
+			Attribute("note")
+		})
+		View("short", func() {
+			Attribute("topic")
+			Attribute("seq")
+		})
+	})
+	var Basic = BasicAuthSecurity("basic")
+	var Key = APIKeySecurity("key")
+	Service("media", func() {
+		Error("denied")
+		Method("upload", func() {
+			Payload(func() {
+				Attribute("name", String, func() { Pattern("^[a-z0-9]+$") })
+				Attribute("tag", String)
+				Required("name")
+			})
+			Result(Receipt)
+			HTTP(func() {
+				POST("/media/{name}")
+				Header("tag:X-Tag")
+				SkipRequestBodyEncodeDecode()
+				Response(StatusOK)
+			})
+		})
+		Method("ingest", func() {
+			Result(Receipt)
+			HTTP(func() {
+				POST("/ingest")
+				SkipRequestBodyEncodeDecode()
+				Response(StatusOK)
+			})
+		})
+		Method("download", func() {
+			Payload(func() {
+				Attribute("name", String)
+				Attribute("times", Int, func() {
+					Minimum(1)
+					Maximum(2000)
+				})
+				Required("name", "times")
+			})
+			Result(func() {
+				Attribute("owner", String)
+				Attribute("length", Int)
+				Required("owner", "length")
+			})
+			Error("gone")
+			HTTP(func() {
+				GET("/media/{name}")
+				Param("times")
+				SkipResponseBodyEncodeDecode()
+				Response(StatusOK, func() {
+					Header("owner:X-Owner")
+					Header("length:X-Length")
+				})
+				Response("gone", StatusGone)
+			})
+		})
+		Method("raw", func() {
+			Payload(func() {
+				Attribute("name", String)
+				Required("name")
+			})
+			HTTP(func() {
+				GET("/raw/{name}")
+				SkipResponseBodyEncodeDecode()
+				Response(StatusOK)
+			})
+		})
+		Method("pipe", func() {
+			Payload(func() {
+				Attribute("name", String)
+				Required("name")
+			})
+			HTTP(func() {
+				POST("/pipe/{name}")
+				SkipRequestBodyEncodeDecode()
+				SkipResponseBodyEncodeDecode()
+				Response(StatusOK)
+			})
+		})
+		Method("ping", func() {
+			HTTP(func() {
+				GET("/ping")
+				GET("/healthz")
+				Response(StatusNoContent)
+			})
+		})
+		Method("feed", func() {
+			StreamingResult(String)
+			HTTP(func() {
+				GET("/feed")
+				Response(StatusOK)
+			})
+		})
+		Method("collect", func() {
+			Payload(func() {
+				Attribute("topic", String)
+				Required("topic")
+			})
+			StreamingPayload(String)
+			Result(String)
+			HTTP(func() {
+				GET("/collect/{topic}")
+				Response(StatusOK)
+			})
+		})
+		Method("moved", func() {
+			HTTP(func() {
+				GET("/moved")
+				Redirect("/ping", StatusMovedPermanently)
+			})
+		})
+		Method("alias", func() {
+			Payload(func() {
+				Attribute("name", String, func() { MinLength(2) })
+				Required("name")
+			})
+			HTTP(func() {
+				GET("/alias/{name}")
+				Redirect("/ping", StatusTemporaryRedirect)
+			})
+		})
+		Method("form", func() {
+			Payload(func() {
+				Attribute("title", String, func() { MinLength(2) })
+				Attribute("part", Bytes)
+				Required("title", "part")
+			})
+			Result(Receipt)
+			HTTP(func() {
+				POST("/form")
+				MultipartRequest()
+				Response(StatusOK)
+			})
+		})
+		Method("tail", func() {
+			Payload(func() {
+				Attribute("topic", String)
+				Attribute("view", String)
+				Attribute("count", Int)
+				Required("topic", "count")
+			})
+			StreamingResult(Frame)
+			HTTP(func() {
+				GET("/tail/{topic}")
+				Param("view")
+				Param("count")
+				Response(StatusOK)
+			})
+		})
+		Method("chat", func() {
+			Payload(func() {
+				Attribute("topic", String)
+				Required("topic")
+			})
+			StreamingPayload(String)
+			StreamingResult(String)
+			HTTP(func() {
+				GET("/chat/{topic}")
+				Response(StatusOK)
+			})
+		})
+		Method("secret", func() {
+			Security(Basic, Key)
+			Payload(func() {
+				Username("user", String)
+				Password("pass", String)
+				APIKey("key", "k", String)
+				Attribute("what", String)
+				Required("user", "pass", "k", "what")
+			})
+			Result(String)
+			Error("denied")
+			HTTP(func() {
+				GET("/secret/{what}")
+				Header("k:X-Key")
+				Response(StatusOK)
+				Response("denied", StatusForbidden)
+			})
+		})
+		Files("/static/one.json", "public/one.json")
+		Files("/assets/{*path}", "public")
+		Files("/old.json", "public/one.json", func() {
+			Redirect("/static/one.json", StatusMovedPermanently)
 		})
 	})
 }
